@@ -226,13 +226,20 @@ class Verdict:
             rdir = os.path.join(VERIF, "build", "replay")
             os.makedirs(rdir, exist_ok=True)
             seen = set()
-            for i, (key, desc, replay) in enumerate(self.violations[:20]):
-                p = os.path.join(rdir, "%s-%d.json" % (self.pid, i))
+            n = 0
+            for i, (key, desc, replay) in enumerate(self.violations):
+                first = key not in seen
+                if not first and n >= 20:
+                    continue                      # one replay file per distinct key, plus the first 20 overall
+                if first and len(seen) >= 60:
+                    continue
+                seen.add(key)
+                p = os.path.join(rdir, "%s-%d.json" % (self.pid, n))
+                n += 1
                 with open(p, "w") as f:
                     json.dump({"property": self.pid, "key": key, "what": desc, "replay": replay}, f)
-                if key not in seen:
+                if first:
                     print("  %s: %s" % (key, desc))
-                    seen.add(key)
                 print("VIOLATION property=%s replay=%s" % (self.pid, p))
             return 1
         print("OK property=%s tier=%s wall=%.1fs %s" % (self.pid, self.tier, time.time() - self.t0,
